@@ -1,3 +1,4 @@
+import TvCore.Props.WorldLinks
 import TvCore.Props.C03
 #print axioms TV.C03.fixed
 #print axioms TV.C03.witness_rand_overrides_explicit
@@ -7,3 +8,6 @@ import TvCore.Props.C03
 #print axioms TV.C03.reverse_unaffected
 #print axioms TV.C03.flows_after_repair
 #print axioms TV.C03.repair_heals
+#print axioms TV.WorldLinks.linkEnqueue_other
+#print axioms TV.WorldLinks.onLink_other
+#print axioms TV.WorldLinks.onLink_hosts
